@@ -989,7 +989,8 @@ func_exit:
 }
 
 Boolean DecodeMoto16Pseudo(tSymbolSize OpSize, Boolean Turn) {
-    LongInt      NewPC, HVal;
+    LargeWord    NewPC;
+    LongInt      HVal;
     Boolean      ValOK;
     tSymbolFlags Flags;
     Boolean      PadBeforeStart;
